@@ -1,6 +1,7 @@
 package hx
 
 import (
+	"errors"
 	"strconv"
 	"strings"
 
@@ -708,6 +709,38 @@ func c07Run(job string) {
 	sym.Reach("end")
 }
 
+// refAtoi: a decimal integer is an optional sign followed by ASCII digits only, within int64.
+func refAtoi(t string) (int, error) {
+	neg, i := false, 0
+	if len(t) > 0 && (t[0] == '+' || t[0] == '-') {
+		neg, i = t[0] == '-', 1
+	}
+	if i == len(t) {
+		return 0, errNotANumber
+	}
+	var n uint64
+	for ; i < len(t); i++ {
+		c := t[i]
+		if c < '0' || c > '9' {
+			return 0, errNotANumber
+		}
+		d := uint64(c - '0')
+		if n > (1<<63)/10 || n*10+d > 1<<63 {
+			return 0, errNotANumber
+		}
+		n = n*10 + d
+	}
+	if neg {
+		return int(-int64(n)), nil
+	}
+	if n > 1<<63-1 {
+		return 0, errNotANumber
+	}
+	return int(n), nil
+}
+
+var errNotANumber = errors.New("not a decimal integer")
+
 func c07Ints(v value.Value) ([]value.Int, bool) {
 	l, ok := v.(*value.List)
 	if !ok {
@@ -787,9 +820,10 @@ func c07String(fg *value.FunctionGenerator, s string) {
 	chk(`s+s`, value.String(s+s), "concat")
 	chk(`s=s & !(s<s) & s<=s`, value.Bool(true), "string-compare")
 	// parse
-	for _, t := range []string{"12", "-7", "1.5", "x", "", "1e3"} {
+	for _, t := range []string{"12", "-7", "1.5", "x", "", "1e3", "010", "0008", "0x10", "0b101", "0o7", "1_000", "+7", " 7", "7 ", "-0", "--1", "9223372036854775807",
+		"9223372036854775808", "-9223372036854775808", "\u0663", "0.0", "inf", "NaN", "0x1p4", "1_0.5", ".5", "5.", "1e", "1e400", "-", "+"} {
 		ri := eval(mustGen(fg, "t.toInt()", "t"), value.String(t))
-		iv, ierr := strconv.Atoi(t)
+		iv, ierr := refAtoi(t)
 		sym.Assert(ri.ok() == (ierr == nil), "toInt-defined:"+t)
 		if ri.ok() && ierr == nil {
 			sym.Assert(valEq(ri.v, value.Int(iv)), "toInt:"+t)
